@@ -381,7 +381,7 @@ pub fn block_region(body: &[MInstr], i: usize) -> Option<(usize, usize)> {
             let mut j = i;
             while j < n {
                 match body[j].ins {
-                    Ins::Block(_) | Ins::Loop(_) | Ins::If(_) => depth += 1,
+                    Ins::Block(_) | Ins::Loop(_) | Ins::If(_) | Ins::TryTable(..) => depth += 1,
                     Ins::End => {
                         depth -= 1;
                         if depth == 0 {
@@ -399,7 +399,7 @@ pub fn block_region(body: &[MInstr], i: usize) -> Option<(usize, usize)> {
             let mut j = i + 1;
             while j < n {
                 match body[j].ins {
-                    Ins::Block(_) | Ins::Loop(_) | Ins::If(_) => depth += 1,
+                    Ins::Block(_) | Ins::Loop(_) | Ins::If(_) | Ins::TryTable(..) => depth += 1,
                     Ins::End => {
                         if depth == 0 {
                             return Some((i, j - 1));
